@@ -2,7 +2,8 @@
 # every check once in the thorough tier on the unchanged tree; prints exit status and wall time per check
 cd "$(dirname "$0")/.."
 (cd lean && lake build FB fbdriver >/dev/null 2>&1)
-for p in C18 C07 C16 C15 C06 C13 C10 C12 C04 C03 C02 C05 C01 C11 C14 C08 C17 C09; do
+# PROPS="C01 C02" harness/thoroughsweep.sh <seed> restricts the sweep (to run halves side by side)
+for p in ${PROPS:-C18 C07 C16 C15 C06 C13 C10 C12 C04 C03 C02 C05 C01 C11 C14 C08 C17 C09}; do
   t0=$(date +%s)
   VERIF_SEED=${1:-0} ./check $p --tier thorough > /tmp/thor_$$.txt 2>&1; e=$?
   t1=$(date +%s)
